@@ -302,7 +302,7 @@ func c17SysRows(ctx *Ctx) {
 	shapes := []string{1: "system.local row with a null rpc_address", 2: "system.local row with a null data_center",
 		3: "system.local row with rpc_address 0.0.0.0", 4: "system.local row with a three-byte rpc_address", 5: "system.local answered with zero rows",
 		6: "system.local answered with a VOID result", 7: "system.local row with a null partitioner", 8: "system.peers rows with a null rpc_address",
-		9: "system.peers rows with a null data_center", 10: "system.local answered with two rows"}
+		9: "system.peers rows with a null data_center", 10: "system.local answered with two rows", 11: "system.peers answered with a VOID result"}
 	procs := map[int]*c17Proc{}
 	for mode := 1; mode < len(shapes); mode++ {
 		procs[mode] = startC17(c17Cfgs[0])
